@@ -235,6 +235,23 @@ package api
 //@   requires e != nil
 //@   ensures result == e.Key + "=" + e.Value
 
+// Environment: "KEY=VALUE" strings <-> KeyValue (strings.SplitN(s, "=", 2) is modelled exactly)
+//@ pure envKeyOf(s string) = indexof(s, "=") >= 0 ? substr(s, 0, indexof(s, "=")) : s
+//@ pure envValOf(s string) = indexof(s, "=") >= 0 ? substr(s, indexof(s, "=") + 1, len(s) - indexof(s, "=") - 1) : ""
+//@ func FromOCIEnv
+//@   props C14
+//@   ensures [nil] in == nil ==> result == nil
+//@   ensures [len] in != nil ==> len(result) == len(in)
+//@   ensures [kv]  in != nil ==> (forall i int :: 0 <= i && i < len(in) ==> result[i] != nil && result[i].Key == envKeyOf(in[i]) && result[i].Value == envValOf(in[i]))
+//@   loop 1 invariant 0 <= idx + 1 && idx + 1 <= len(in) && len(out) == idx + 1 && fresh(out)
+//@   loop 1 invariant forall i int :: 0 <= i && i <= idx ==> out[i] != nil && fresh(out[i]) && out[i].Key == envKeyOf(in[i]) && out[i].Value == envValOf(in[i])
+// a key without "=" survives the round trip through the OCI form, whatever the value (which may contain "=")
+//@ lemma envRoundTrip
+//@   props C14
+//@   vars k string, v string
+//@   hyp  !contains(k, "=")
+//@   goal envKeyOf(k + "=" + v) == k && envValOf(k + "=" + v) == v
+
 // ---------------------------------------------------------------------------
 // Optional accessors and resource conversions between NRI and OCI (C14)
 // ---------------------------------------------------------------------------
